@@ -23,6 +23,7 @@ var verifRec struct {
 	events []VerifEvent
 	points map[string]chan struct{}
 	hits   map[string]int
+	timers map[string]time.Duration
 }
 
 func verifFmt(a any) string {
@@ -118,4 +119,30 @@ func VerifDrainEvents() []VerifEvent {
 	ev := verifRec.events
 	verifRec.events = nil
 	return ev
+}
+
+// verifTimer lets a scenario shorten a long timer it has just seen armed (the 60..300 s
+// hold-down): when an override is set for the name the timer is re-armed with it.
+func verifTimer(name string, t *time.Timer) {
+	verifRec.mu.Lock()
+	d, ok := verifRec.timers[name]
+	verifRec.mu.Unlock()
+	if ok {
+		t.Reset(d)
+		verifEvent("timer.override", name, int64(d))
+	}
+}
+
+// VerifSetTimerOverride sets (d > 0) or clears (d <= 0) the override for the named timer.
+func VerifSetTimerOverride(name string, d time.Duration) {
+	verifRec.mu.Lock()
+	if verifRec.timers == nil {
+		verifRec.timers = map[string]time.Duration{}
+	}
+	if d > 0 {
+		verifRec.timers[name] = d
+	} else {
+		delete(verifRec.timers, name)
+	}
+	verifRec.mu.Unlock()
 }
